@@ -201,7 +201,7 @@ class Runner:
         if mode == 'witness':
             cmd += ['--no-standard-checks', '--no-unwinding-assertions']
         else:
-            cmd += ['--unwinding-assertions', '--trace']
+            cmd += ['--unwinding-assertions', '--trace', '--verbosity', '8']
             if 'sovf' not in job.checks:
                 cmd += ['--no-signed-overflow-check']
             if 'povf' in job.checks:
@@ -245,9 +245,12 @@ class Runner:
                 res['errors'].append(m.get('messageText', ''))
             elif m.get('messageType') == 'STATUS-MESSAGE':
                 t = m.get('messageText', '')
-                mm = re.match(r'Runtime (Symex|Solver|decision procedure): ([0-9.e+-]+)s', t)
+                mm = re.match(r'Runtime (Symex|Solver|decision procedure|Convert SSA): ([0-9.e+-]+)s', t)
                 if mm:
                     res['stats'][mm.group(1)] = res['stats'].get(mm.group(1), 0) + float(mm.group(2))
+                mm = re.match(r'size of program expression: (\d+) steps', t)
+                if mm:
+                    res['stats']['ssa_steps'] = int(mm.group(1))
                 mm = re.match(r'(\d+) variables, (\d+) clauses', t)
                 if mm:
                     res['stats']['vars'] = int(mm.group(1))
@@ -547,7 +550,9 @@ class Runner:
                'repo_sources_sha256': srcs, 'repo': REPO,
                'known_findings_observed': [k['raw'] for k, _ in known_lines],
                'inconclusive': inconclusive,
-               'solver_wall_total_s': round(sum((h['stats'] or {}).get('Solver', 0) + (h['stats'] or {}).get('decision procedure', 0) for h in harness_recs), 2)}
+               'solver_time_total_s': round(sum((h['stats'] or {}).get('decision procedure', 0) for h in harness_recs), 2),
+               'symex_time_total_s': round(sum((h['stats'] or {}).get('Symex', 0) for h in harness_recs), 2),
+               'queries_discharged': evaluations}
         cov.update(self.extra_cov)
         if self.level == 'translation_validation':
             cov['programs'] = nontrivial
@@ -556,8 +561,9 @@ class Runner:
               'assumptions': self.assumptions + ['cbmc 6.11.0 semantics of C; --no-malloc-may-fail (allocation failure out of scope); bounds listed per harness'],
               'wall_s': round(wall, 2), 'violations': len(violations)}
         if not only:
-            os.makedirs(os.path.join(VERIF, 'evidence'), exist_ok=True)
-            with open(os.path.join(VERIF, 'evidence', self.pid + '.json'), 'w') as f:
+            evd = os.environ.get('VERIF_EVIDENCE_DIR', os.path.join(VERIF, 'evidence'))
+            os.makedirs(evd, exist_ok=True)
+            with open(os.path.join(evd, self.pid + '.json'), 'w') as f:
                 json.dump(ev, f, indent=1)
         else:
             with open(os.path.join(self.work, 'evidence.partial.json'), 'w') as f:
